@@ -527,7 +527,7 @@ def c12(run):
 def link_cfg(family):
     # c07collide: the model binds an argument over a visible name of another type (TypeStable is then not an invariant)
     collide = family == "c07collide"
-    sep = {"c07lines": "  SlotSep <- SepLines\n", "c07comment": "  SlotSep <- SepComment\n"}.get(family, "")
+    sep = {"c07lines": "  SlotSep <- SepLines\n", "c07comment": "  SlotSep <- SepComment\n", "c07tight": "  ArgLay <- LayTight\n"}.get(family, "")
     return """CONSTANTS
   DevP <- DevPIntended
   Family = "%s"
@@ -562,7 +562,7 @@ def c06(run):
 
 @check("C07")
 def c07(run):
-    return link_check(run, "c07", more=["c07collide", "c07lines", "c07comment"], rule=
+    return link_check(run, "c07", more=["c07collide", "c07lines", "c07comment", "c07tight"], rule=
                       "five component files (no slot, default slot, named slots with arguments in conditions, both) x "
                       "pages with every ordered pair of 12 uses (same component twice with different arguments and "
                       "slot bodies, with and without slots), triples, uses inside @each and @if, a component inside a "
